@@ -274,7 +274,7 @@ def run_table_slope(case, ctx):
     ctx.count("table_slope_rows")
     if abs(Fi) > 1e-6:
       nz = True
-    if abs(Fi + (E2 - E0) / (2 * dr)) > bound:
+    if not (abs(Fi + (E2 - E0) / (2 * dr)) <= bound):
       ctx.violation("table_force_vs_slope", "row %s r=%s: force %r vs -(E[i+1]-E[i-1])/(2dr) = %r (bound %.3g)" % (rows[i][0], rows[i][1], Fi, -(E2 - E0) / (2 * dr), bound), what="table_force_vs_slope")
       return
   ctx.nontrivial(nz)
